@@ -131,7 +131,7 @@ def c04_classify(params, tree, res):
     if text and (text.endswith('**/') or text.endswith('***/')) and not res.get('only_glob') and res.get('only_match'):
         if res.get('only_match_nondir') == res['only_match']:
             return 'final-globstar-dir-pattern-accepts-non-directory'
-    return None
+    return c06_classify(params, tree, res)
 
 
 # ---------------------------------------------------------------------------------------------------------
@@ -346,6 +346,13 @@ def c12(root, pats, flags, exclude, slots):
             variants['dir_fd'] = _call(G.glob, pats_s, dir_fd=fd, **kw)
         finally:
             os.close(fd)
+        # a root_dir given relative to a dir_fd of the parent directory
+        parent, base = os.path.split(root.rstrip('/'))
+        fd = os.open(parent or '/', os.O_RDONLY | getattr(os, 'O_DIRECTORY', 0))
+        try:
+            variants['dir_fd of the parent + relative root_dir'] = _call(G.glob, pats_s, dir_fd=fd, root_dir=base, **kw)
+        finally:
+            os.close(fd)
         os.chdir(root)
         variants['cwd'] = _call(G.glob, pats_s, **kw)
         os.chdir('/')
@@ -554,6 +561,9 @@ def c14(root, finc, fexc, dinc, dexc, flags, slots):
     if isinstance(got, str):
         return {'viol': [f'WcMatch.match raised {got}'], 'obs': got}
     skipped = w.get_skipped()
+    # a second run of the same object over the unchanged tree: same files, same skipped count
+    again = _call(lambda: list(w.imatch()))
+    skipped2 = w.get_skipped()
     rec = bool(flags & W.RECURSIVE)
     hid = bool(flags & W.HIDDEN)
     sym = bool(flags & W.SYMLINKS)
@@ -609,6 +619,8 @@ def c14(root, finc, fexc, dinc, dexc, flags, slots):
         viol.append(f'WcMatch({fpat!r}, exclude={dpat!r}) returned {sorted(set(got_rel))} but the filtered walk selects {sorted(set(want))}')
     if skipped != visited[0] - len(got_rel):
         viol.append(f'get_skipped()={skipped} but visited {visited[0]} files and returned {len(got_rel)}')
+    if again != got or skipped2 != skipped:
+        viol.append(f'second run of the same object: files {again == got}, get_skipped() {skipped2} vs {skipped}')
     return {'viol': viol, 'obs': (sorted(got_rel), skipped)}
 
 
@@ -638,8 +650,12 @@ def c18fs(root, kind, pats, flags, slots):
             if r != 'EXC:TypeError':
                 viol.append(f'mixed str/bytes pattern and root did not raise TypeError: {r}')
         return {'viol': viol, 'obs': rs}
-    ws = _call(lambda: W.WcMatch(root, pats, None, flags).match())
-    wb = _call(lambda: W.WcMatch(broot, os.fsencode(pats), None, flags).match())
+    if pats is None:
+        ws = _call(lambda: W.WcMatch(root, flags=flags).match())
+        wb = _call(lambda: W.WcMatch(broot, flags=flags).match())
+    else:
+        ws = _call(lambda: W.WcMatch(root, pats, None, flags).match())
+        wb = _call(lambda: W.WcMatch(broot, os.fsencode(pats), None, flags).match())
     wbd = [os.fsdecode(x) for x in wb] if isinstance(wb, list) else wb
     if wbd != ws:
         viol.append(f'WcMatch bytes {wbd} != str {ws}')
